@@ -5,6 +5,16 @@ VERIF = os.path.dirname(os.path.dirname(os.path.abspath(__file__)))
 
 # id -> (category, technique, text, note, design_ref, engine)
 CHECKS = {
+ "C17": ("model_checking",
+         "TLC exhaustive check of code-shaped RangeCache.tla (1..3 readers); TLC-generated histories replayed on the real RangeCache; TLC trace judge (Trace_RangeCache.tla)",
+         "Every sequential history (Size 4, <= 4-5 operations incl. failing remote, SetRange, expiry of any subset) and every interleaving of 2-3 readers split at the lock boundary is explored exhaustively on the code-shaped model; all short histories and sampled long ones are executed on the real cache, plus 1 MiB-file histories, concurrent readers under the race detector and the ReadAt wrapper; every returned byte string is judged by TLC against the byte function of the remote.",
+         "Entry age is abstracted (any subset may expire); partial expiry in the replay sets LastRead through package-internal access; concurrency on the real code is free-running (seeded), not schedule-forced; HTTP itself is not exercised.",
+         "DESIGN.md section 7, C17", "rangecache"),
+ "C18": ("model_checking",
+         "TLC exhaustive check of PlusCal FirstSuccess.tla (safety + termination under fairness); TLC-enumerated completion orders forced on the real FirstSuccess with gated jobs; TLC trace judge (Trace_FirstSuccess.tla)",
+         "All outcome vectors x limits x interleavings for N <= 3 (quick) / 5 (thorough) on the code-shaped PlusCal model, including liveness; every (outcomes, limit, feasible completion order) for N <= 4/5 is forced on the real function through gated job closures and each return value is judged by TLC against FirstSuccessAbs.",
+         "Request context stays live (the property's proviso); a hang is detected by a 3 s watchdog after all jobs finished.",
+         "DESIGN.md section 7, C18", "firstsuccess"),
  "C06": ("model_checking",
          "TLC exhaustive check of code-shaped GsfaWriter.tla; TLC-simulated schedules forced on the real writer through hook gates; TLC trace judge (Trace_Gsfa.tla) over recorded read-backs",
          "Exhaustive TLC exploration of every push history x goroutine interleaving of the code-shaped writer model (thresholds shrunk), plus every TLC-generated schedule replayed step by step on the real writer with the same literals shrunk, real-constant runs around the 1000-entry batch size and the periodic flush, and records at both sides of the varint width boundaries; every recorded read-back is judged by TLC against the abstract property.",
@@ -12,6 +22,10 @@ CHECKS = {
          "DESIGN.md section 7, C06", "gsfa"),
 }
 ENGINES = [
+ {"name": "rangecache", "path": "spec/RangeCache.tla", "serves_properties": ["C17"],
+  "kind_free_text": "TLA+ RangeCacheAbs/RangeCache + Gen_RangeCache + Trace_RangeCache; Go replayers harness/pkg/range-cache, harness/pkg/split-car-fetcher"},
+ {"name": "firstsuccess", "path": "spec/FirstSuccess.tla", "serves_properties": ["C18"],
+  "kind_free_text": "PlusCal FirstSuccess + FirstSuccessAbs + Gen_FirstSuccess + Trace_FirstSuccess; Go replayer harness/main/c18_test.go"},
  {"name": "gsfa", "path": "spec/GsfaWriter.tla", "serves_properties": ["C06"],
   "kind_free_text": "TLA+ GsfaAbs/GsfaWriter/LinkedLog + Gen_GsfaWriter (-simulate schedules) + Trace_Gsfa judge; Go replayer harness/pkg/gsfa"},
 ]
